@@ -19,6 +19,8 @@ type Step struct {
 	Op   string `json:"op"` // add | prior | pop | popanyway | trypop | close | tryclose | tryclear | observe | push | poppri
 	Lane int    `json:"lane,omitempty"`
 	Pri  int    `json:"pri,omitempty"`
+	// add: go through the queue's Add*Anyway entry point (only where the model says the lane is not full)
+	Anyway bool `json:"anyway,omitempty"`
 }
 
 type Case struct {
@@ -86,6 +88,9 @@ func genFifo(t *rapid.T, kind string) Case {
 		st := Step{Op: op}
 		if isMQ && (op == "add" || op == "prior") && rapid.Bool().Draw(t, "ctrl") {
 			st.Lane = qadapt.LaneCtrl
+		}
+		if op == "add" && !isSync && rapid.IntRange(0, 3).Draw(t, "anywayadd") == 0 {
+			st.Anyway = true // through Add*Anyway (where the lane is not full)
 		}
 		// fold the model so that a blocking pop is never issued
 		switch op {
@@ -211,6 +216,11 @@ func execFifo(c Case, res *vkit.Result) *vkit.Result {
 			}
 			wasClosed := m.closed
 			e := applyFifo(m, st, v, isSync)
+			if st.Op == "add" && st.Anyway && q.AddAnyway != nil && e.outcome != qadapt.Full {
+				// (on a full lane the Anyway entry points retry forever: a blocking call, not part of sequential histories)
+				add = q.AddAnyway
+				res.Class("add-through-anyway-entry")
+			}
 			got := add(st.Lane, v)
 			if got != e.outcome {
 				site := "add-outcome"
